@@ -1119,7 +1119,9 @@ mod repr {
 
     fn to_f32_small(dword: DoubleWord) -> Approximation<f32, Sign> {
         let f = dword as f32;
-        if f.is_infinite() {
+        if f.is_infinite() || f == DoubleWord::MAX as f32 {
+            // the cast rounded up to 2^DWORD_BITS (finite for 32-bit words, infinite for 64-bit words),
+            // casting back would saturate to DoubleWord::MAX
             return Inexact(f, Sign::Positive);
         }
 
